@@ -406,7 +406,8 @@ impl TimeDelta {
         if secs <= i64::MIN as i128 || secs >= i64::MAX as i128 {
             return None;
         };
-        Some(TimeDelta { secs: secs as i64, nanos: nanos as i32 })
+        // `new` checks the result against `TimeDelta::MIN` and `TimeDelta::MAX`.
+        TimeDelta::new(secs as i64, nanos as u32)
     }
 
     /// Divide a `TimeDelta` with a i32, returning `None` if dividing by 0.
